@@ -98,3 +98,17 @@ Fixpoint wfb (k : pykey) : bool :=
   | KBad => false
   | KT l => negb (is_nil l) && forallb wfb l
   end.
+
+(* ---- unravel_keys( *keys)  (added in the deepening round) ----
+   native: csrc/pybind.cpp binds "unravel_keys" to unravel_key with ONE argument ("for bc compat"): any other arity is a
+   TypeError and the result is the bare unravelled key.  Python (compile) branch: tuple(unravel_key(key) for key in keys). *)
+Inductive keysres := KOne (r : keyres) | KMany (l : list keyres) | KRaise.
+
+Definition cpp_unravel_keys (ks : list pykey) : keysres :=
+  match ks with
+  | [k] => match cpp_unravel_key k with RRaise => KRaise | r => KOne r end
+  | _ => KRaise
+  end.
+
+Definition py_unravel_keys (ks : list pykey) : keysres :=
+  match py_unravel_key_list ks with Some l => KMany l | None => KRaise end.
